@@ -56,7 +56,7 @@ Definition best_sizes (signed : bool) (n_word n_frac : option Z) (n_word_max : Z
   if nfr <? 0 then Unmodelled else          (* 1 << n_frac raises for a negative count *)
   let vmax := scaled_trunc (dy_max vals) nfr in
   let vmin := scaled_trunc (dy_min vals) nfr in
-  match int_loop 200 (n_word_max - sign) vmax vmin 0 with
+  match int_loop 400 (n_word_max - sign + nfr) vmax vmin 0 with      (* while n_int < n_word_max - sign + n_frac: at most n_word_max - sign bits of integer part *)
   | None => Unmodelled
   | Some ni0 =>
       let ni := Z.max (ni0 - nfr) 0 in
